@@ -2,7 +2,7 @@
 (* B3 for C13: recorded executions of the real compute_path_with_disjunction are judged against               *)
 (* FeasibilityOps.  One trace = one service request on one path with one constructed transceiver library:      *)
 (*   modes[k]   what was CONFIGURED for mode k (baud rate, bit rate, fits, threshold = OSNR + margin, reciprocal *)
-(*              transmitter OSNR, penalty tables) and the figures of mode k propagated ALONE on a fresh copy   *)
+(*              transmitter OSNR, penalty points as listed in the file) and the figures of mode k propagated ALONE on a fresh copy   *)
 (*              of the path with the implementation's own propagate(): pf (forward), pr (reverse)              *)
 (*   addf/addr  reciprocal OSNR configured for every add/drop stage crossed, forward / reverse                 *)
 (*   ev         every recomputation of receiver figures, in order: the pristine ones (kind 0, a reference      *)
@@ -34,12 +34,16 @@ SameFigure(a, b, tol) == IF a >= Inf \/ b >= Inf THEN a >= Inf /\ b >= Inf ELSE 
 EvalClauses(tr, e) ==
   LET m == tr.modes[e.mode]
       p == Pristine(tr, e.mode, e.dir)
-  IN  (IF TableOK(m.cd) /\ TableOK(m.pmd) /\ TableOK(m.pdl) THEN {} ELSE {"TableWellFormed"})
+      tcd  == TableOf(m.cd)           \* the tables as WRITTEN in the equipment file, ordered by the specification
+      tpmd == TableOf(m.pmd)
+      tpdl == TableOf(m.pdl)
+  IN  (IF PointsOK(m.cd) /\ PointsOK(m.pmd) /\ PointsOK(m.pdl) /\ TableOK(tcd) /\ TableOK(tpmd) /\ TableOK(tpdl)
+       THEN {} ELSE {"TableWellFormed"})
       \cup (IF \A c \in Chans(e) : CompositionOK(e.rx[c], e.line[c], m.tx, AddsOf(tr, e), TolInv)
             THEN {} ELSE {"CompositionLaw"})
-      \cup (IF \A c \in Chans(e) : /\ PenaltyOK(m.cd, e.cd[c], e.pcd[c], TolPen)
-                                   /\ PenaltyOK(m.pmd, e.pmd[c], e.ppmd[c], TolPen)
-                                   /\ PenaltyOK(m.pdl, e.pdl[c], e.ppdl[c], TolPen)
+      \cup (IF \A c \in Chans(e) : /\ PenaltyOK(tcd, e.cd[c], e.pcd[c], TolPen)
+                                   /\ PenaltyOK(tpmd, e.pmd[c], e.ppmd[c], TolPen)
+                                   /\ PenaltyOK(tpdl, e.pdl[c], e.ppdl[c], TolPen)
                                    /\ TotalOK(<<e.pcd[c], e.ppmd[c], e.ppdl[c]>>, e.tot[c], TolPen)
             THEN {} ELSE {"PenaltyLaw"})
       \cup (IF e.kind = 1 /\ p.ran = 1 /\
